@@ -40,6 +40,8 @@ type Doc struct {
 	valid    Value // bool or *Term: document is well-formed JSON
 	symKind  docKind
 	decided  bool
+	kindT    *Term           // symbolic kind in [0,5], refined lazily
+	absent   map[string]bool // member names assumed absent (stated bound of the harness)
 	children map[string]*Doc
 	present  map[string]Value
 	tag      string
@@ -584,37 +586,61 @@ func (e *Engine) jsonUnmarshal(fr *frame, data []Value, target Iface) Value {
 	return Iface{}
 }
 
-// symKindOf decides (once) the kind of an arbitrary document.
+// symIs asks whether an arbitrary document has kind k, refining it lazily:
+// only the distinctions the decoder actually makes become case splits.
+func (e *Engine) symIs(d *Doc, k docKind) bool {
+	if d.kind != DSym {
+		return d.kind == k
+	}
+	if d.decided {
+		return d.symKind == k
+	}
+	if d.kindT == nil {
+		t := e.newInputInt("doc-kind:"+d.tag, 0, 5)
+		d.kindT = t.(*Term)
+	}
+	if !e.branch(e.simplify(e.ts.Eq(d.kindT, e.ts.Int(int64(k))), nil)) {
+		return false
+	}
+	d.symKind = k
+	d.decided = true
+	switch k {
+	case DStr:
+		d.leaf = e.callIntrinsicStr("docstr:" + d.tag)
+	case DNum:
+		d.isInt = true
+		if e.branch(e.newInput("bool", "doc-num-fractional:"+d.tag, sortBool)) {
+			d.isInt = false
+			d.leaf = float64(0.5)
+		} else {
+			d.leaf = e.newInputInt("docnum:"+d.tag, -(1 << 40), 1<<40)
+		}
+	case DBool:
+		d.leaf = e.newInput("bool", "docbool:"+d.tag, sortBool)
+	case DArr:
+		n := e.concretizeInt(e.newInputInt("doc-arr-len:"+d.tag, 0, 2), "array length")
+		d.elems = []*Doc{}
+		for i := int64(0); i < n; i++ {
+			c := e.symDocNode(fmt.Sprintf("%s[%d]", d.tag, i))
+			c.absent = d.absent
+			d.elems = append(d.elems, c)
+		}
+	}
+	return true
+}
+
+// symKindOf fully decides the kind (needed only when decoding into `any`).
 func (e *Engine) symKindOf(d *Doc) docKind {
 	if d.kind != DSym {
 		return d.kind
 	}
-	if !d.decided {
-		k := e.newInputInt("doc-kind:"+d.tag, 0, 5)
-		d.symKind = docKind(e.concretizeInt(k, "document kind"))
-		d.decided = true
-		switch d.symKind {
-		case DStr:
-			d.leaf = e.callIntrinsicStr("docstr:" + d.tag)
-		case DNum:
-			d.isInt = true
-			if e.branch(e.newInput("bool", "doc-num-fractional:"+d.tag, sortBool)) {
-				d.isInt = false
-				d.leaf = float64(0.5)
-			} else {
-				d.leaf = e.newInputInt("docnum:"+d.tag, -(1 << 40), 1<<40)
-			}
-		case DBool:
-			d.leaf = e.newInput("bool", "docbool:"+d.tag, sortBool)
-		case DArr:
-			n := e.concretizeInt(e.newInputInt("doc-arr-len:"+d.tag, 0, 2), "array length")
-			d.elems = []*Doc{}
-			for i := int64(0); i < n; i++ {
-				d.elems = append(d.elems, e.symDocNode(fmt.Sprintf("%s[%d]", d.tag, i)))
-			}
+	for k := DNull; k <= DObj; k++ {
+		if e.symIs(d, k) {
+			return k
 		}
 	}
-	return d.symKind
+	e.infeasiblePath("document kind")
+	return DNull
 }
 
 func (e *Engine) callIntrinsicStr(tag string) Value {
@@ -634,14 +660,24 @@ func (e *Engine) symDocNode(tag string) *Doc {
 
 // symbolicDoc implements vDoc: an arbitrary byte string seen through
 // encoding/json: either not a JSON document, or an arbitrary tree.
-func (e *Engine) symbolicDoc(tag string) Value {
+func (e *Engine) symbolicDoc(tag string, absent string) Value {
 	d := e.symDocNode(tag)
 	d.valid = e.newInput("bool", "doc-valid:"+tag, sortBool)
+	if absent != "" {
+		d.absent = map[string]bool{}
+		for _, k := range strings.Split(absent, ",") {
+			d.absent[strings.TrimSpace(k)] = true
+		}
+	}
+	e.nondets = append(e.nondets, nondetRec{Name: fmt.Sprintf("in%d_doc", len(e.nondets)), Kind: "h:doc", Tag: tag, Doc: d})
 	return docSlice(d)
 }
 
 // symChild returns the member of an arbitrary object for key, or nil.
 func (e *Engine) symChild(d *Doc, key string) *Doc {
+	if d.absent[key] {
+		return nil
+	}
 	if _, ok := d.present[key]; !ok {
 		d.present[key] = e.newInput("bool", "doc-has:"+d.tag+"."+key, sortBool)
 	}
@@ -651,6 +687,7 @@ func (e *Engine) symChild(d *Doc, key string) *Doc {
 	c := d.children[key]
 	if c == nil {
 		c = e.symDocNode(d.tag + "." + key)
+		c.absent = d.absent
 		d.children[key] = c
 	}
 	return c
@@ -684,12 +721,12 @@ func (e *Engine) decodeInto(fr *frame, d *Doc, t types.Type, cur Value, firstErr
 			*firstErr = k
 		}
 	}
-	kind := e.symKindOf(d)
+	is := func(k docKind) bool { return e.symIs(d, k) }
 	// special types
 	if isNamed(t, "encoding/json", "RawMessage") {
 		return docSlice(d)
 	}
-	if kind == DNull {
+	if is(DNull) {
 		switch t.Underlying().(type) {
 		case *types.Pointer, *types.Interface, *types.Map, *types.Slice:
 			return zero(t)
@@ -697,7 +734,7 @@ func (e *Engine) decodeInto(fr *frame, d *Doc, t types.Type, cur Value, firstErr
 		return cur
 	}
 	if isNamed(t, "time", "Time") {
-		if kind == DStr {
+		if is(DStr) {
 			if o, ok := d.leaf.(*OpaqueStr); ok && strings.HasPrefix(o.Tag, "time:") {
 				return copyVal(o.Payload)
 			}
@@ -731,7 +768,7 @@ func (e *Engine) decodeInto(fr *frame, d *Doc, t types.Type, cur Value, firstErr
 		}
 		return e.decodeAny(d)
 	case *types.Struct:
-		if kind != DObj {
+		if !is(DObj) {
 			saveErr("UnmarshalTypeError")
 			return cur
 		}
@@ -752,25 +789,25 @@ func (e *Engine) decodeInto(fr *frame, d *Doc, t types.Type, cur Value, firstErr
 	case *types.Basic:
 		switch {
 		case u.Info()&types.IsBoolean != 0:
-			if kind != DBool {
+			if !is(DBool) {
 				saveErr("UnmarshalTypeError")
 				return cur
 			}
 			return d.leaf
 		case u.Info()&types.IsString != 0:
-			if kind != DStr {
+			if !is(DStr) {
 				saveErr("UnmarshalTypeError")
 				return cur
 			}
 			return d.leaf
 		case u.Info()&types.IsInteger != 0:
-			if kind != DNum || !d.isInt {
+			if !is(DNum) || !d.isInt {
 				saveErr("UnmarshalTypeError")
 				return cur
 			}
 			return e.numInto(d.leaf, u, cur, saveErr)
 		case u.Info()&types.IsFloat != 0:
-			if kind != DNum {
+			if !is(DNum) {
 				saveErr("UnmarshalTypeError")
 				return cur
 			}
@@ -788,7 +825,7 @@ func (e *Engine) decodeInto(fr *frame, d *Doc, t types.Type, cur Value, firstErr
 		saveErr("UnmarshalTypeError")
 		return cur
 	case *types.Slice:
-		if kind == DStr {
+		if is(DStr) {
 			if eb := basicOf(u.Elem()); eb != nil && eb.Kind() == types.Uint8 {
 				if o, ok := d.leaf.(*OpaqueStr); ok && o.Tag == "base64" {
 					switch p := o.Payload.(type) {
@@ -800,7 +837,7 @@ func (e *Engine) decodeInto(fr *frame, d *Doc, t types.Type, cur Value, firstErr
 				}
 			}
 		}
-		if kind != DArr {
+		if !is(DArr) {
 			saveErr("UnmarshalTypeError")
 			return cur
 		}
@@ -810,7 +847,7 @@ func (e *Engine) decodeInto(fr *frame, d *Doc, t types.Type, cur Value, firstErr
 		}
 		return out
 	case *types.Array:
-		if kind != DArr {
+		if !is(DArr) {
 			saveErr("UnmarshalTypeError")
 			return cur
 		}
@@ -824,7 +861,7 @@ func (e *Engine) decodeInto(fr *frame, d *Doc, t types.Type, cur Value, firstErr
 		}
 		return a
 	case *types.Map:
-		if kind != DObj {
+		if !is(DObj) {
 			saveErr("UnmarshalTypeError")
 			return cur
 		}
@@ -939,3 +976,133 @@ func (e *Engine) decodeAny(d *Doc) Value {
 }
 
 var anyType = types.Universe.Lookup("any").Type()
+
+// renderDoc turns an arbitrary document into concrete JSON text using the
+// current model (for native replay). Undecided parts get harmless defaults.
+func (e *Engine) renderDoc(d *Doc) string {
+	mv := func(t Value) ModelValue {
+		tt, ok := t.(*Term)
+		if !ok {
+			switch x := t.(type) {
+			case bool:
+				return ModelValue{Sort: sortBool, B: x}
+			case int64:
+				return ModelValue{Sort: sortInt, I: bigFromInt64(x)}
+			case string:
+				return ModelValue{Sort: sortStr, S: x}
+			}
+			return ModelValue{}
+		}
+		return e.solver.GetValues([]*Term{tt})[0]
+	}
+	var rec func(d *Doc) string
+	rec = func(d *Doc) string {
+		if d.kind != DSym {
+			return e.renderConcreteDoc(d, mv)
+		}
+		kind := d.symKind
+		if !d.decided {
+			if d.kindT == nil {
+				return "null"
+			}
+			kind = docKind(mv(d.kindT).I.Int64())
+			switch kind {
+			case DStr:
+				return `""`
+			case DNum:
+				return "0"
+			case DBool:
+				return "false"
+			case DArr:
+				return "[]"
+			case DObj:
+				// fall through to members decided so far
+			default:
+				return "null"
+			}
+		}
+		switch kind {
+		case DNull:
+			return "null"
+		case DBool:
+			if mv(d.leaf).B {
+				return "true"
+			}
+			return "false"
+		case DNum:
+			if !d.isInt {
+				return "0.5"
+			}
+			return mv(d.leaf).I.String()
+		case DStr:
+			b, _ := json.Marshal(mv(d.leaf).S)
+			return string(b)
+		case DArr:
+			var parts []string
+			for _, el := range d.elems {
+				parts = append(parts, rec(el))
+			}
+			return "[" + strings.Join(parts, ",") + "]"
+		case DObj:
+			var keys []string
+			for k := range d.present {
+				keys = append(keys, k)
+			}
+			sort.Strings(keys)
+			var parts []string
+			for _, k := range keys {
+				if !mv(d.present[k]).B {
+					continue
+				}
+				kb, _ := json.Marshal(k)
+				c := d.children[k]
+				if c == nil {
+					parts = append(parts, string(kb)+":null")
+				} else {
+					parts = append(parts, string(kb)+":"+rec(c))
+				}
+			}
+			return "{" + strings.Join(parts, ",") + "}"
+		}
+		return "null"
+	}
+	if !mv(d.valid).B {
+		return "{not json"
+	}
+	return rec(d)
+}
+
+func (e *Engine) renderConcreteDoc(d *Doc, mv func(Value) ModelValue) string {
+	switch d.kind {
+	case DNull:
+		return "null"
+	case DBool:
+		if mv(d.leaf).B {
+			return "true"
+		}
+		return "false"
+	case DNum:
+		if f, ok := d.leaf.(float64); ok {
+			b, _ := json.Marshal(f)
+			return string(b)
+		}
+		return mv(d.leaf).I.String()
+	case DStr:
+		b, _ := json.Marshal(mv(d.leaf).S)
+		return string(b)
+	case DArr:
+		var parts []string
+		for _, el := range d.elems {
+			parts = append(parts, e.renderConcreteDoc(el, mv))
+		}
+		return "[" + strings.Join(parts, ",") + "]"
+	case DObj:
+		var parts []string
+		for i, k := range d.keys {
+			kb, _ := json.Marshal(k)
+			parts = append(parts, string(kb)+":"+e.renderConcreteDoc(d.vals[i], mv))
+		}
+		return "{" + strings.Join(parts, ",") + "}"
+	}
+	return "null"
+}
